@@ -16,6 +16,8 @@ import (
 	"tunnox-core/internal/cloud/managers"
 	"tunnox-core/internal/cloud/repos"
 	"tunnox-core/internal/core/storage"
+	"tunnox-core/internal/core/storage/hybrid"
+	"tunnox-core/internal/core/storage/memory"
 	"tunnox-core/internal/protocol/session/connstate"
 )
 
@@ -181,16 +183,24 @@ func runConc(c concIn) *concOut {
 		}
 		gs := &gatedStore{Storage: w.st[node], idx: i, g: g, mu: &mu, calls: &calls[i], connPrefix: connPrefix, clientPrefix: clientPrefix,
 			casOK: storageHasCAS(w.st[node], clientPrefix)}
-		store := connstate.NewStore(gs, nodeName(node), time.Hour)
+		var target storage.Storage = gs
+		if c.Backend == "hybrid-gated-shared" {
+			// the gate sits in the SHARED tier, UNDER a tiered storage instance of this invocation's own node (private local
+			// cache): what the tiered storage itself does on the shared tier (e.g. a CompareAndSwap done as Get + Set under a
+			// per-process lock) is interleaved at storage-call granularity with the other node's instance
+			gs.Storage, gs.casOK = w.shared, true
+			target = hybrid.NewWithSharedCache(w.ctx, memory.New(w.ctx), gs, nil, nil)
+		}
+		store := connstate.NewStore(target, nodeName(node), time.Hour)
 		if k := arg(t, 0); k >= thStConnect && k <= thStDisc {
 			gs.only = cloudStatePrefix // the client service touches many other keys (node lists, counters, legacy repo): not gated
 		}
-		go func(i int, t []int, store *connstate.Store) {
+		go func(i int, t []int, store *connstate.Store, target storage.Storage) {
 			defer close(done[i])
 			if k := arg(t, 0); k >= thStConnect && k <= thStDisc {
 				cfg := managers.DefaultConfig()
 				cfg.NodeID = nodeName(arg(t, 1))
-				cloud := factories.NewBuiltinCloudControlWithStorageAndServices(w.ctx, cfg, gs)
+				cloud := factories.NewBuiltinCloudControlWithStorageAndServices(w.ctx, cfg, target)
 				x, nd, cn := int64(arg(t, 3)), nodeName(arg(t, 1)), connName(arg(t, 2))
 				switch k {
 				case thStConnect:
@@ -225,7 +235,7 @@ func runConc(c concIn) *concOut {
 			case thRefresh:
 				_ = store.RefreshConnection(w.ctx, connName(arg(t, 2)))
 			}
-		}(i, t, store)
+		}(i, t, store, target)
 	}
 	parked := make([]bool, n)
 	finished := make([]bool, n)
